@@ -944,7 +944,7 @@ func TestVerif_C05_APIBound(t *testing.T) {
 		{50 * s, 20 * s, 0, 0},
 		{50 * s, 20 * s, 10 * s, 0},
 	}
-	total := kit.N(240, 750)
+	total := kit.N(240, 2000)
 	per := total / len(rounds)
 	origMax, origDef := v.Core.maxLeaseTTL, v.Core.defaultLeaseTTL
 	for ri, round := range rounds {
